@@ -423,7 +423,7 @@ def jobs_for(prop, tier):
 
 def _jobs_for(prop, tier):
     if prop == 'C01':
-        return jobs_c01(tier) + jobs_carry(tier) + jobs_numpy_getitem(tier) + jobs_option_getitem(tier) + jobs_ellipsis(tier) + jobs_missing(tier) + jobs_advanced(tier)
+        return jobs_c01(tier) + jobs_carry(tier) + jobs_numpy_getitem(tier) + jobs_option_getitem(tier) + jobs_ellipsis(tier) + jobs_missing(tier) + jobs_advanced(tier) + jobs_getitem_entry(tier)
     if prop == 'C05':
         return jobs_c05(tier) + [j for j in jobs_option_below(tier) if j[1][3] in ('num', 'localindex')] + jobs_flatten(tier) + jobs_axis0(tier, 'localindex') + jobs_record_below(tier, ('num', 'localindex'))
     if prop == 'C09':
@@ -2840,12 +2840,13 @@ def _slice_item(nc, i, kind):
         data = nc.m.array('it%d_data' % i, ('i', 64), n, const=True)
         cells = {0: (nc.vptr_of('N7awkward12SliceArrayOfIlEE', 'SLC'), 8)}
         nc.index_cells(cells, fo[1], data, BV(0), BV(n))
-        sh = nc.m.array('it%d_shape' % i, ('i', 64), len(shape), const=True, arr=_const_array(shape))
-        stv = nc.m.array('it%d_strides' % i, ('i', 64), len(shape), const=True, arr=_const_array([2, 1][-len(shape):]))
+        # std::vector<int64_t> buffers as records (byte-addressed, copied cell-wise by the vector copy constructor)
+        sh = nc.m.record('it%d_shape' % i, {8 * k_: (BV(v_), 8) for k_, v_ in enumerate(shape)}, const=True)
+        stv = nc.m.record('it%d_strides' % i, {8 * k_: (BV(v_), 8) for k_, v_ in enumerate([2, 1][-len(shape):])}, const=True)
         for base, arr_ in ((fo[2], sh), (fo[3], stv)):
             cells[base] = (arr_, 8)
-            cells[base + 8] = (Ptr(arr_.obj, BV(len(shape))), 8)          # array objects are addressed by element index (a z3 term)
-            cells[base + 16] = (Ptr(arr_.obj, BV(len(shape))), 8)
+            cells[base + 8] = (Ptr(arr_.obj, 8 * len(shape)), 8)
+            cells[base + 16] = (Ptr(arr_.obj, 8 * len(shape)), 8)
         cells[fo[4]] = (BV(0, 8), 1)
         return nc.m.record('it%d' % i, cells, const=True)
     raise Unsupported('slice item kind ' + kind)
@@ -4911,3 +4912,107 @@ def h_record_below(nfields, length, meth):
 def jobs_record_below(tier, meths):
     q = [(2, 2), (1, 0)] if tier == 'quick' else [(2, 2), (1, 0), (3, 1), (1, 3), (0, 2)]
     return [(h_record_below, (nf, L, m_), 900) for nf, L in q for m_ in meths]
+
+
+# ------------------------------------------------------------------------------------------------ C01: the entry point Content::getitem(Slice)
+@guard
+def h_getitem_entry(L, kind, step=1):
+    """Content::getitem(slice) with one item on an array of L entries (the entry point of every slice: the array is wrapped in a regular
+    dimension of one row, the item is applied to that row and the row is taken out again): array[i] / array[a:b:step] / array[[i0, i1]] is what
+    Python gives on the list of entries; an index out of range raises"""
+    from .c18 import KNONE
+    nc = NodeCtx(['CNT', 'RA', 'IDX', 'UTL', 'KD', 'IDS', 'SLC', 'EA'], [], unwind=max(12, 2 * L + 10))
+    nc.m.assume(nc.lencontent == L)
+    atoms = [Elem(BV(i)) for i in range(L)]
+    a, b = nc.m.bv('a'), nc.m.bv('b')
+    if kind == 'at':
+        item = nc.m.record('item', {0: (nc.vptr_of('N7awkward7SliceAtE', 'SLC'), 8), 8: (a, 8)}, const=True)
+    elif kind == 'range':
+        item = nc.m.record('item', {0: (nc.vptr_of('N7awkward10SliceRangeE', 'SLC'), 8), 8: (a, 8), 16: (b, 8), 24: (BV(step), 8)}, const=True)
+        for v in (a, b):
+            nc.m.assume(z3.Or(v == KNONE, z3.And(v >= -(2 ** 40), v <= 2 ** 40)))
+    else:
+        item = _slice_item(nc, 0, 'array1')
+        a0 = z3.Array('it0_data', z3.BitVecSort(64), z3.BitVecSort(64))
+        a, b = z3.Select(a0, BV(0)), z3.Select(a0, BV(1))
+    where = _slice_object(nc, 'where', [item])
+    nc.m.record('ret', {})
+    kk_ = z3.BitVec('k!', 64)
+
+    def s_at_nowrap(eng, fr, ins, st, name, argv):
+        nm_, info_ = nc.content_info(argv[1], st, eng)
+        st.trace = st.trace + ((st.pc, 'getitem_at_nowrap', (z3.simplify(z3.Select(info_['atoms'], argv[2])),)),)          # which original entry is asked for
+        nc._ret(st, argv[0], nc.fresh_content(eng, st, BV(1), z3.Lambda([kk_], kk_ + 900), derived='element'))
+        return None
+    nc.m.eng.stubs['vf$slot%d' % nc.slot('17getitem_at_nowrapEl')] = s_at_nowrap
+    out = nc.m.call('_ZNK7awkward7Content7getitemERKNS_5SliceE', [Ptr('ret', 0), nc.content0, where])
+    wrap = lambda v: z3.If(v < 0, v + L, v)
+    if kind == 'at':
+        r = wrap(a)
+        inr = z3.And(r >= 0, r < L)
+        obls = [('raises exactly when the index is out of range', z3.simplify(out.raised) != z3.Not(inr))]
+        # array[i] of an opaque array is what its own getitem_at_nowrap answers: observed as the call
+        calls = [(pc, t) for pc, nm, t in out.trace if 'getitem_at' in str(nm)]
+        obls.append(('the entry taken out is the one at the wrapped index', z3.And(z3.Not(out.raised), z3.Not(z3.Or([z3.And(pc, t[0] == r) for pc, t in calls if t] + [z3.BoolVal(False)])))))
+    elif kind == 'range':
+        from .c18 import slice_sel
+        obls = [('a range never raises', out.raised)]
+        res = decode(nc, out.mem, nc.m.cell('ret', 0))
+        ln, el = opaque_seq(res)
+        first, cnt = slice_sel(BV(L), a, b, step)
+        p = z3.BitVec('p!pos', 64)
+        obls += [('the answer has len(range(*slice.indices(L))) entries', ln != cnt), ('entry p of the answer is entry first + p * step', z3.And(p >= 0, p < cnt, el(p) != first + p * step))]
+    else:
+        ra, rb = wrap(a), wrap(b)
+        inr = z3.And(ra >= 0, ra < L, rb >= 0, rb < L)
+        obls = [('raises exactly when an index is out of range', z3.simplify(out.raised) != z3.Not(inr))]
+        rp = nc.m.cell('ret', 0)
+        if rp is not None and any(q.obj is not None for g, q in nodeh.ptr_cases(rp)):
+            res = decode(nc, out.mem, rp)
+            ln, el = opaque_seq(res)
+            okp = z3.And(inr, z3.Not(out.raised))
+            obls += [('two entries', z3.And(okp, ln != 2)), ('entry 0 is array[i0]', z3.And(okp, el(BV(0)) != ra)), ('entry 1 is array[i1]', z3.And(okp, el(BV(1)) != rb))]
+
+    def replay(model, ent):
+        ev = lambda t: model.eval(t, model_completion=True).as_signed_long()
+        A, B = ev(a), ev(b)
+        vals = list(range(100, 100 + L))
+        tok = lambda v: 'NONE' if v == KNONE else str(v)
+        pyv = lambda v: None if v == KNONE else v
+        if kind == 'at':
+            prog = 'i64 %s getitem 1 at %d' % (fullnative.ints(vals), A)
+            try:
+                exp = vals[A]
+            except IndexError:
+                exp = None
+        elif kind == 'range':
+            prog = 'i64 %s regular 1 %d getitem 1 range %s %s %d' % (fullnative.ints(vals), L, tok(A), tok(B), step)
+            exp = [[x] for x in vals[slice(pyv(A), pyv(B), step)]]
+        else:
+            prog = 'i64 %s regular 1 %d getitem 1 array 2 %d %d' % (fullnative.ints(vals), L, A, B)
+            try:
+                exp = [[vals[A]], [vals[B]]]
+            except IndexError:
+                exp = None
+        k_, got = fullnative.akrun(prog)
+        payload = dict(program=prog, native=[k_, got], expected=exp)
+        if exp is None:
+            if k_ != 'ERR':
+                return True, 'an index out of range on %d entries must raise; the native library returns %s %s' % (L, k_, got), payload
+            return False, 'native library raises, as Python does', payload
+        if k_ != 'OK' or got != exp:
+            return True, '%s: native library %s %s, Python gives %s' % (prog, k_, str(got)[:150], exp), payload
+        return False, 'native library agrees (%s)' % str(got)[:80], payload
+    small = lambda v: z3.Or(v == KNONE, z3.And(v >= -6, v <= 6))
+    return mdischarge(nc.m, 'Content::getitem [%s%s] on %d entries' % (kind, ' step %d' % step if kind == 'range' else '', L), obls, [], replay=replay, prefer=[small(a), small(b)],
+                      extra=dict(bounds='%d entries (case split); index / start / stop any int64 (None included for ranges)' % L))
+
+
+def jobs_getitem_entry(tier):
+    js = []
+    for L in ((0, 3) if tier == 'quick' else (0, 1, 2, 3, 4)):
+        js.append((h_getitem_entry, (L, 'at'), 900))
+        js.append((h_getitem_entry, (L, 'array'), 900))
+        for st in ((1, -1) if tier == 'quick' else (1, 2, -1, -2)):
+            js.append((h_getitem_entry, (L, 'range', st), 900))
+    return js
